@@ -12,6 +12,9 @@ def strip_pos(t):
     return ['T', t[1], [strip_pos(c) for c in t[2]]]
 
 
+model_spans_check = True
+
+
 def check(ctx, res, jobs, outs, want_meta=False):
     for job, (st, rec) in zip(jobs, outs):
         g = job[0]
@@ -49,20 +52,41 @@ def check(ctx, res, jobs, outs, want_meta=False):
                     raise InfraError('driver: %s' % m['error'])
                 real = e['real']
                 if want_meta:
-                    exp = shapelib.model_spans(m['built'][0], e['spans'], [])
                     nl = '\n' in run['text']
                     res.case(['meta', g, run['text'], name, rec['opts']], nontrivial=len(e['metas']) > 1,
                              sample={'grammar': g, 'text': run['text'], 'engine': name, 'metas': e['metas'][:4]} if nl and len(e['metas']) > 2 else None)
                     res.count('meta_nodes', len(e['metas']))
                     if shapelib.model_tree(m['built'][0], e['labels'], e['toks']) != real:
                         continue      # a shaping disagreement: C03's business
-                    if e.get('f19_region'):
-                        res.count('meta_skipped_region_F19'); continue
-                    if e['metas'] != exp:
-                        k = [i for i, (a, b) in enumerate(zip(e['metas'], exp)) if a != b][0]
+                    pm = e.get('pos_model')
+                    if pm is None or 'error' in pm:
+                        raise InfraError('driver positions: %r' % (pm,))
+                    # offsets -> (line, column): the tokens' own coordinates (checked against the text by the token half of this property)
+                    slc = {t[2]: (t[4], t[5]) for t in e['toks']}
+                    elc = {t[3]: (t[6], t[7]) for t in e['toks']}
+                    full = lambda sp: None if sp is None else [sp[0], slc[sp[0]][0], slc[sp[0]][1], sp[1], elc[sp[1]][0], elc[sp[1]][1]]
+                    mm = [full(x[0]) for x in pm['metas'][0]]      # what the model of PropagatePositions computes
+                    own = [full(x[1]) for x in pm['metas'][0]]     # SPEC: span of what the rule that built the node matched
+                    if model_spans_check and shapelib.model_spans(m['built'][0], e['spans'], []) != own:
+                        raise InfraError('span oracle of the harness and spans of the Lean model differ')
+                    if len(mm) != len(e['metas']):
+                        res.corr_break('model of PropagatePositions yields %d trees, the real result has %d' % (len(mm), len(e['metas'])),
+                                       {'grammar': g, 'text': run['text'], 'engine': name, 'opts': rec['opts']}); continue
+                    bad = [k for k, (a, b) in enumerate(zip(e['metas'], own)) if b is not None and a != b]
+                    if not pm['clean']:
+                        res.count('meta_cases_in_region_F19')
+                    if bad:
+                        k = bad[0]
+                        if not pm['clean'] and e['metas'] == mm:
+                            res.count('meta_F19_behaviour_as_modelled'); continue     # exactly what the model predicts inside the region of F19
                         res.violation('meta of a tree node is not the span (first token start .. last token end) of what its rule matched',
                                       {'grammar': g, 'text': run['text'], 'engine': name, 'opts': rec['opts'], 'node_preorder_index': k,
-                                       'meta [start_pos,line,column,end_pos,end_line,end_column]': e['metas'][k], 'span_of_rule_yield': exp[k]})
+                                       'meta [start_pos,line,column,end_pos,end_line,end_column]': e['metas'][k], 'span_of_rule_yield': own[k],
+                                       'model_of_PropagatePositions': mm[k], 'theorem_hypothesis_cleanB': pm['clean']})
+                    elif e['metas'] != mm:
+                        k = [i for i, (a, b) in enumerate(zip(e['metas'], mm)) if a != b][0]
+                        res.corr_break('Tree.meta differs from the model of PropagatePositions (on a node the property does not constrain)',
+                                       {'grammar': g, 'text': run['text'], 'engine': name, 'opts': rec['opts'], 'node_preorder_index': k, 'code': e['metas'][k], 'model': mm[k]})
                     continue
                 res.case(['shape', g, run['text'], name, rec['opts']], nontrivial=len(e['labels']) > 1,
                          sample={'grammar': g, 'text': run['text'], 'engine': name, 'opts': rec['opts'], 'tree': strip_pos(real)} if len(e['labels']) > 3 and len(res.samples) < 4 else None)
